@@ -783,7 +783,9 @@ impl W2State {
             match own_token {
                 Some(da) if da != ts => {
                     self.c11.holder = false;
-                    let fuzzy = matches!(self.c11.pass, Some((_, 255, _, _))) && !was_holder;
+                    // a pass that collides with a transmission in progress: the tail of that transmission reaches
+                    // the station as undecodable bytes after its pass ("something was heard")
+                    let fuzzy = (matches!(self.c11.pass, Some((_, 255, _, _))) && !was_holder) || tx.overlaps_prev;
                     self.c11.pass = Some((da, if fuzzy { 255 } else { 1 }, tx.end, false));
                     self.c11.heard_from_successor = None;
                 }
